@@ -18,9 +18,9 @@ theorem parseQ_escStr (s rest : Str) :
 /-! ### decimal numbers -/
 
 theorem digitChar_facts (d : Nat) (h : d < 10) :
-    (digitChar d).isDigit = true ∧ (digitChar d).toNat - 48 = d ∧ digitChar d ≠ '\'' ∧
-      digitChar d ≠ '$' ∧ digitChar d ≠ '-' ∧ identStart (digitChar d) = false ∧
-      isWs (digitChar d) = false := by
+    (idigitChar d).isDigit = true ∧ (idigitChar d).toNat - 48 = d ∧ idigitChar d ≠ '\'' ∧
+      idigitChar d ≠ '$' ∧ idigitChar d ≠ '-' ∧ identStart (idigitChar d) = false ∧
+      isWs (idigitChar d) = false := by
   match d, h with
   | 0, _ => decide
   | 1, _ => decide
@@ -34,11 +34,11 @@ theorem digitChar_facts (d : Nat) (h : d < 10) :
   | 9, _ => decide
   | n + 10, h => omega
 
-theorem natStr_lt (n : Nat) (h : n < 10) : natStr n = [digitChar n] := by
+theorem natStr_lt (n : Nat) (h : n < 10) : natStr n = [idigitChar n] := by
   rw [natStr]; simp [h]
 
 theorem natStr_ge (n : Nat) (h : ¬ n < 10) :
-    natStr n = natStr (n / 10) ++ [digitChar (n % 10)] := by
+    natStr n = natStr (n / 10) ++ [idigitChar (n % 10)] := by
   rw [natStr]; simp [h]
 
 theorem allDigits_append (a b : Str) : allDigits (a ++ b) = (allDigits a && allDigits b) := by
@@ -68,13 +68,13 @@ theorem digitsNat_natStr (n : Nat) : digitsNat (natStr n) = n := by
       omega
 
 /-- the first character of a printed natural number is a digit -/
-theorem natStr_head (n : Nat) : ∃ d r, d < 10 ∧ natStr n = digitChar d :: r := by
+theorem natStr_head (n : Nat) : ∃ d r, d < 10 ∧ natStr n = idigitChar d :: r := by
   induction n using Nat.strongRecOn with
   | _ n ih =>
     by_cases h : n < 10
     · exact ⟨n, [], h, natStr_lt n h⟩
     · obtain ⟨d, r, hd, hr⟩ := ih (n / 10) (by omega)
-      exact ⟨d, r ++ [digitChar (n % 10)], hd, by rw [natStr_ge n h, hr]; rfl⟩
+      exact ⟨d, r ++ [idigitChar (n % 10)], hd, by rw [natStr_ge n h, hr]; rfl⟩
 
 /-! ### token boundaries -/
 
